@@ -45,6 +45,16 @@ def streams(tier, seed):
                 o = op_apodize(a, "t2", kind, {"lw": lw} if kind in ("exponential", "gaussian") else {})
                 if o is not None:
                     out.append([a, o])
+    # the SAME kind, length, axis start and parameters on axes of DIFFERENT spacing, one call after the other in one process:
+    # the window is evaluated on the coordinates of the object at hand, every time
+    for kind in DECAYING:
+        for n in (8, 16):
+            for x0 in (Fraction(0), Fraction(1, 2)):
+                for dt in (Fraction(1, 4), Fraction(1, 2), Fraction(1, 64), Fraction(3)):
+                    a = uniform_new(rng, 0, ["t2"], [n], "t2", x0=x0, dt=dt)
+                    o = op_apodize(a, "t2", kind, {"lw": "1/10"} if kind in ("exponential", "gaussian") else {})
+                    if o is not None:
+                        out.append([a, o])
     return out
 
 
